@@ -1,5 +1,5 @@
 //@ assume: pmmr::bintree_postorder_height / n_leaves / is_left_sibling are the REAL functions with their contracts from C07/pmmr_arith (included and re-verified here; `pmmr::f(` => `f(`); the arithmetic facts this function relies on -- a node of height h >= 1 sits at a position >= 2^h, a leaf that is a right sibling has at least two leaves up to and including itself -- are proved here as lemmas over the explicit tree (lemma_subtree_fits of C07, lemma_right_leaf_two, lemma_lb_pos). pmmr::peaks is abstract (peaks_in_range_rev)
-//@ assume: segment_pos_range / full_segment are abstract (contracts proved in C16/segment_ident); used here: first <= last+1 and last < mmr_size; Hash, the leaf element type and `hash_with_index` are abstract (uninterpreted hash functions); croaring Bitmap::contains is abstract (has(idx))
+//@ assume: segment_pos_range / full_segment are abstract (contracts proved in C16/segment_ident); used here: last < mmr_size only -- an identifier beyond the MMR gives an inverted (empty) range, first > last + 1, which the code must tolerate; Hash, the leaf element type and `hash_with_index` are abstract (uninterpreted hash functions); croaring Bitmap::contains is abstract (has(idx))
 //@ assume: T5: generic `Segment<T>` => one abstract leaf type Leaf. The std iterator `self.leaf_pos.iter().zip(&self.leaf_data)` + `.find(|&(&p, _)| p == pos0).map(|(_, l)| l)` => LeafZip, a VERIFIED stand-in (cursor over the two vectors; find_pos advances to the first remaining entry with that position, exactly as Iterator::find does, consuming what it skips); `self.hash_pos.iter().zip(&self.hashes).find(..).map(..)` inside get_hash likewise
 //@ assume: T6: `.ok_or_else(|| E)` => `.ok_or(E)` (E is a plain enum value: eager construction is unobservable); `bitmap.map(closure).unwrap_or(true)` => opt_map_bitmap(bitmap, env).unwrap_or(true) with the REAL closure body verified as the lifted function leaf_required (T7); `(l, r).hash_with_index(p)` => hash_pair(l, r, p); `pmmr::peaks(..).into_iter().filter(|&pos0| pos0 >= first && pos0 <= last).rev()` => peaks_in_range_rev (abstract: some list of positions <= last); `for pos0 in peaks` => slice iterator form; `for pos0 in first..=last` => `first..last + 1` (last < mmr_size < 2^63, so no overflow; this verifier leaves the loop variable of an inclusive range unconstrained); `hash.map(Some).ok_or(E)` => the equivalent match
 //@ assume: assumed precondition: 1 <= mmr_size < 2^63
@@ -151,7 +151,7 @@ impl Segment {
     pub uninterp spec fn sp_range(&self, mmr_size: u64) -> (u64, u64);
     #[verifier::external_body]
     pub fn segment_pos_range(&self, mmr_size: u64) -> (r: (u64, u64))
-        requires mmr_size >= 1 ensures r == self.sp_range(mmr_size), r.0 <= r.1 + 1, r.1 < mmr_size { unimplemented!() }
+        requires mmr_size >= 1 ensures r == self.sp_range(mmr_size), r.1 < mmr_size { unimplemented!() }
     #[verifier::external_body]
     fn full_segment(&self, mmr_size: u64) -> (r: bool) { unimplemented!() }
 //@ extract core/src/core/pmmr/segment.rs :: impl Segment::get_hash
@@ -190,7 +190,7 @@ impl Segment {
 //@+        (segment_first_pos, segment_last_pos) == self.sp_range(mmr_size),
 //@+        leaves0.pos == &self.leaf_pos, leaves0.data == &self.leaf_data,
 //@+        bitmap.is_none() ==> forall|i: int| 0 <= i < hashes@.len() ==> (#[trigger] hashes@[i]).is_some(),
-//@+        forall|p: u64| segment_first_pos <= p < pos0 && sp_height(p) == 0 && required(bitmap, p, mmr_size) ==> #[trigger] self.leaf_pos@.contains(p),
+//@+        segment_first_pos <= segment_last_pos + 1 ==> (forall|p: u64| segment_first_pos <= p < pos0 && sp_height(p) == 0 && required(bitmap, p, mmr_size) ==> #[trigger] self.leaf_pos@.contains(p)),
 //@   loop 2:
 //@+    invariant
 //@+        1 <= mmr_size < 0x8000_0000_0000_0000u64, segment_last_pos < mmr_size,
